@@ -49,7 +49,7 @@ RAW400 = b"HTTP/1.0 400 Bad Request\r\n\r\n"
 def impl_outcomes(api, reply):
     """-> (list of canonical outcome strings, hints string for http)"""
     outs, hints = [], ""
-    if api == "scgi":
+    if api in ("scgi", "fwd"):
         if reply:
             r = parse_cgi_response(reply)
             if r is None:
